@@ -764,8 +764,41 @@ resolve_cases = st.fixed_dictionaries(
 )
 
 
+def _resolve_grid() -> list[dict[str, Any]]:
+    """Small fixed grid: URL shape x length lie x checksum x coding, all on the parallel path through resolve_external_location."""
+    grid = []
+    for q in ("none", "token", "sigv4", "sigv2", "gcs"):
+        for userinfo, fragment in ((True, True), (False, True), (True, False)):
+            for lie in ("none", "understate", "overstate", "ce_get_only"):
+                for sha in (True, False):
+                    for ce in ("none", "gzip"):
+                        script = _build_script([], 0, 5000, 100, 0.01)
+                        if lie == "understate":
+                            script["head"]["cl"] = "small"
+                            script["probe"]["mode"] = "206_total_small"
+                        elif lie == "overstate":
+                            script["head"]["cl"] = "big"
+                            script["probe"]["mode"] = "206_total_big"
+                        elif lie == "ce_get_only":
+                            script["ce_declared"] = "get_only"
+                        grid.append(
+                            {
+                                "via": "resolve",
+                                "sha": sha,
+                                "retries": 1,
+                                "url": {"userinfo": userinfo, "query": q, "fragment": fragment, "initial_bad": None},
+                                "obj": {"size": 700, "kind": "sha", "seed": 2, "ce": ce},
+                                "cfg": {"max_fetch": 1 << 20, "max_decomp": None, "chunk": 100, "threshold": 0, "max_redirects": 3, "par": 3, "hedge_mult": 2.0, "max_hedges": 1},
+                                "validator": {"style": "url", "deny_cdn": False},
+                                "script": script,
+                            }
+                        )
+    return grid
+
+
 def main(chk: Check) -> None:
-    chk.explore("faults", cases, run_case, quick=1200, thorough=16000)
-    chk.explore("honest", honest_cases, run_case, quick=400, thorough=5000)
-    chk.explore("parallel", parallel_cases, run_case, quick=700, thorough=9000)
-    chk.explore("resolve", resolve_cases, run_case, quick=300, thorough=5000)
+    chk.explore("faults", cases, run_case, quick=900, thorough=16000)
+    chk.explore("honest", honest_cases, run_case, quick=300, thorough=5000)
+    chk.explore("parallel", parallel_cases, run_case, quick=550, thorough=9000)
+    chk.explore("resolve", resolve_cases, run_case, quick=250, thorough=5000)
+    chk.enumerate("resolve_grid", _resolve_grid(), run_case)
